@@ -192,9 +192,10 @@ class Stub:
     """
     The controller handed to ``run_ode``: base + faults, counting everything.
 
-    ``fault(cycle, phase, index, t, call number)`` decides whether this call
-    returns the fault value; phase is "I" (integration: ``out`` owns its memory) or "P"
-    (interpolation: ``out`` is a view of the result matrix), index the call
+    ``fault(cycle, phase, index, t, call number)`` decides whether this
+    call returns the fault value; phase is "I" (integration: ``out`` owns
+    its memory) or "P" (interpolation: ``out`` is a view of the result
+    matrix), index the call
     number within the phase of the cycle.
     """
 
@@ -770,7 +771,6 @@ def report(ctx, total):
 
 # ---------------------------------------------------------------------- run
 def run(ctx: Ctx) -> None:
-    from moptipyapps.dynamic_control import ode  # noqa: F401
     quick = ctx.quick
     for name in SYS_DIMS:
         get_system(name)
